@@ -106,8 +106,9 @@ type Config struct {
 	SlashDoubleSignPct int64 `json:"slash_double_sign_pct"`
 	SlashDowntimePct   int64 `json:"slash_downtime_pct"`
 	ReplayBurnMult     int64 `json:"replay_burn_mult"`
-	RSCALOn            bool  `json:"rscal_weighted"`      // non-trivial stake weighting parameters
-	SplitACL           bool  `json:"split_acl,omitempty"` // every third parameter key is owned by a second owner (key index 1)
+	RSCALOn            bool  `json:"rscal_weighted"`         // non-trivial stake weighting parameters
+	StartHeight        int64 `json:"start_height,omitempty"` // C14: empty blocks are run up to this height before the generated steps (heights with rules of their own)
+	SplitACL           bool  `json:"split_acl,omitempty"`    // every third parameter key is owned by a second owner (key index 1)
 
 	// upgrade schedule installed in genesis (gov Upgrade param)
 	CodecUpgradeHeight int64            `json:"codec_upgrade_height"`
